@@ -7,6 +7,11 @@
 //	the decoded value, walked through its exported API (valgen.FromGolib), is structurally
 //	equal to the original (valgen.Equal: type, payload by bits, order of items/entries)
 //	re-encoding the decoded value reproduces the bytes
+//	decoding is a pure function of the bytes: a second decode of the same bytes gives the same
+//	tree, the first tree is unchanged by it, by overwriting the caller's input slice, and by
+//	the round trips of later values (purity.go)
+//	the same encoding arriving in random fragments over a connection (io.NewDataInputNet on a
+//	net.Pipe) decodes to the same tree and leaves the sentinel as the next byte (netmode.go)
 //
 // A failing value is first reduced to its smallest failing sub-value, so the finding key
 // names the innermost type that breaks: "<ValueType>:<kind>".
@@ -32,15 +37,32 @@ type V = refcodec.V
 var canary = []byte{0xCA, 0xFE, 0x5A}
 
 type failure struct {
-	kind   string // bytes-differ | decode-panics | not-consumed | not-restored@… | reencode-differs | …
+	kind   string // bytes-differ | decode-panics | not-consumed | not-restored@… | reencode-differs | … (+ "/net-mode" …)
 	what   string
 	detail map[string]interface{}
 }
 
+// kindInconclusive marks a case in which a watchdog or deadline fired: neither pass nor fail.
+const kindInconclusive = "<inconclusive>"
+
+func (f *failure) inconclusive() bool { return f.kind == kindInconclusive }
+
+// opts selects the optional parts of the oracle for one round trip.
+type opts struct {
+	net      bool   // decode a second time through a connection-backed input
+	netForce bool   // … whatever the size of the encoding (minimisation of a net-mode failure)
+	salt     uint64 // with the hash of the encoding: stream of the fragment sizes
+}
+
+// encodings up to this size always take the connection-backed decode too, larger ones for one
+// salt in three (they cost one conn.Read per primitive)
+const netAlwaysBelow = 1 << 16
+
 // result of one successful round trip (used for evidence)
 type okInfo struct {
 	enc     []byte
-	decoded value.Value
+	decoded []value.Value // every tree decoded from enc (buffer, second buffer decode, connection)
+	net     *netOutcome   // nil: the connection-backed decode was not taken
 }
 
 func firstDiff(a, b []byte) int {
@@ -82,7 +104,7 @@ func lastSegments(p string, n int) string {
 }
 
 // roundTrip runs the whole oracle on one value and returns the first failure (nil = held).
-func roundTrip(v V) (*failure, *okInfo) {
+func roundTrip(v V, o opts) (*failure, *okInfo) {
 	var g value.Value
 	if p := vlib.Catch(func() { g = valgen.ToGolib(v) }); p != nil {
 		return &failure{"build-panics", fmt.Sprintf("building the value through the public constructors panics: %v", p), nil}, nil
@@ -151,7 +173,73 @@ func roundTrip(v V) (*failure, *okInfo) {
 			map[string]interface{}{"encoding_hex": vlib.Hex(enc), "reencoded_hex": vlib.Hex(enc2), "first_diff": off,
 				"first_window": window(enc, off), "second_window": window(enc2, off)}}, nil
 	}
-	return nil, &okInfo{enc: enc, decoded: d}
+	info := &okInfo{enc: enc, decoded: []value.Value{d}}
+	if f := purity(v, enc, input, d, info); f != nil {
+		return f, nil
+	}
+	if o.net && (o.netForce || len(enc) <= netAlwaysBelow || o.salt%3 == 0) {
+		if f := netRoundTrip(v, enc, o, info); f != nil {
+			return f, nil
+		}
+	}
+	return nil, info
+}
+
+// netRoundTrip: the encoding arrives over a connection in fragments; same tree, exact consumption.
+func netRoundTrip(v V, enc []byte, o opts, info *okInfo) *failure {
+	out := netDecode(enc, canary, vlib.NewRand(vlib.Mix(o.salt^vlib.HashBytes(enc))))
+	if out.inconclusive != "" {
+		return &failure{kind: kindInconclusive, what: out.inconclusive}
+	}
+	det := func(extra map[string]interface{}) map[string]interface{} {
+		m := map[string]interface{}{"encoding_hex": vlib.Hex(enc), "input_mode": "io.NewDataInputNet(net.Pipe end)",
+			"fragment_plan": out.plan, "fragments": out.fragments, "conn_reads": out.reads, "conn_short_reads": out.short}
+		for k, x := range extra {
+			m[k] = x
+		}
+		return m
+	}
+	if out.panicked != nil {
+		return &failure{kind: "decode-panics/net-mode", what: fmt.Sprintf("ReadValue panics when the encoding (which decodes from a byte buffer) is read from a connection: %v", out.panicked),
+			detail: det(map[string]interface{}{"last_conn_read_error": fmt.Sprint(out.readErr)})}
+	}
+	if !bytes.Equal(out.after, canary) {
+		return &failure{kind: "not-consumed/net-mode",
+			what:   fmt.Sprintf("connection-backed ReadValue took %d bytes of the %d-byte encoding: the next bytes on the connection are %x (err %v), want the sentinel %x", out.consumed, len(enc), out.after, out.afterErr, canary),
+			detail: det(map[string]interface{}{"consumed": out.consumed})}
+	}
+	d := out.d
+	if d == nil {
+		return &failure{kind: "not-restored@nil/net-mode", what: "connection-backed ReadValue returned nil", detail: det(nil)}
+	}
+	if gt := d.GetValueType(); gt != v.Tag {
+		return &failure{kind: "not-restored@type/net-mode", what: fmt.Sprintf("value decoded from a connection reports type code %d, want %d", gt, v.Tag), detail: det(nil)}
+	}
+	var dv V
+	if p := vlib.Catch(func() { dv = valgen.FromGolib(d) }); p != nil {
+		return &failure{kind: "not-restored@walk-panics/net-mode", what: fmt.Sprintf("walking the value decoded from a connection panics: %v", p), detail: det(nil)}
+	}
+	if ok, path := valgen.Equal(v, dv); !ok {
+		return &failure{kind: "not-restored@" + lastSegments(valgen.PathKind(path), 3) + "/net-mode",
+			what:   "value decoded from a connection differs from the original at " + path + " (the byte-buffer decode of the same bytes is equal)",
+			detail: det(map[string]interface{}{"path": path, "decoded": valgen.Render(dv, 2000)})}
+	}
+	var enc2 []byte
+	if p := vlib.Catch(func() {
+		w := gio.NewDataOutputX()
+		value.WriteValue(w, d)
+		enc2 = w.ToByteArray()
+	}); p != nil {
+		return &failure{kind: "reencode-panics/net-mode", what: fmt.Sprintf("WriteValue of the value decoded from a connection panics: %v", p), detail: det(nil)}
+	}
+	if !bytes.Equal(enc, enc2) {
+		off := firstDiff(enc, enc2)
+		return &failure{kind: "reencode-differs/net-mode", what: fmt.Sprintf("re-encoding the value decoded from a connection differs at offset %d (%d vs %d bytes)", off, len(enc), len(enc2)),
+			detail: det(map[string]interface{}{"reencoded_hex": vlib.Hex(enc2), "first_diff": off})}
+	}
+	info.decoded = append(info.decoded, d)
+	info.net = out
+	return nil
 }
 
 func baseKind(k string) string {
@@ -181,13 +269,18 @@ func without(v V, i, n int) V {
 // minimize walks down to the smallest failing sub-value and then drops container entries
 // that are not needed for the failure (same base kind), within a bounded number of trials.
 func minimize(v V, f *failure) (V, *failure) {
+	// the optional connection-backed decode is repeated only when it is what failed
+	o := opts{}
+	if strings.HasSuffix(f.kind, "/net-mode") {
+		o = opts{net: true, netForce: true, salt: 1}
+	}
 	trials := 200000
 	for trials > 0 {
 		moved := false
 		kids := valgen.Children(&v)
 		for i := range kids {
 			trials--
-			if cf, _ := roundTrip(kids[i]); cf != nil {
+			if cf, _ := roundTrip(kids[i], o); cf != nil && !cf.inconclusive() {
 				v, f, moved = kids[i], cf, true
 				break
 			}
@@ -206,7 +299,7 @@ func minimize(v V, f *failure) (V, *failure) {
 			for i := 0; i+chunk <= n && trials > 0; {
 				trials--
 				w := without(v, i, chunk)
-				if wf, _ := roundTrip(w); wf != nil && baseKind(wf.kind) == baseKind(f.kind) {
+				if wf, _ := roundTrip(w, o); wf != nil && !wf.inconclusive() && baseKind(wf.kind) == baseKind(f.kind) {
 					v, f = w, wf
 					n -= chunk
 				} else {
@@ -252,9 +345,13 @@ func chains(x value.Value) (buckets, longest int) {
 var (
 	nodesByTag [256]int64
 	topByTag   [256]int64
-	stat       = map[string]int64{}
-	maxes      = map[string]int64{}
-	shapes     = map[string]bool{}
+	// the same, for values that also went through the connection-backed decode
+	netNodesByTag [256]int64
+	netTopByTag   [256]int64
+	netPlans      = map[string]bool{}
+	stat          = map[string]int64{}
+	maxes         = map[string]int64{}
+	shapes        = map[string]bool{}
 )
 
 func bump(k string, n int64) { stat[k] += n }
@@ -264,7 +361,7 @@ func top(k string, v int64) {
 	}
 }
 
-func observe(c *vlib.Ctx, section string, v V, ok *okInfo) {
+func observe(c *vlib.Ctx, section string, v V, ok *okInfo) valgen.Stat {
 	st := valgen.Stats(v, func(n *V, depth int) {
 		nodesByTag[n.Tag]++
 		if valgen.IsContainer(n.Tag) {
@@ -301,6 +398,22 @@ func observe(c *vlib.Ctx, section string, v V, ok *okInfo) {
 	bump("bytes_total", int64(len(ok.enc)))
 	bump("canary_checks", 1)
 	bump("reencodes_compared", 1)
+	bump("purity_second_decodes", 1)
+	bump("purity_input_overwrites", 1)
+	if n := ok.net; n != nil {
+		bump("net_mode_decodes", 1)
+		bump("net_mode_nodes", int64(st.Nodes))
+		bump("net_mode_bytes", int64(len(ok.enc)))
+		bump("net_mode_fragments", int64(n.fragments))
+		bump("net_mode_conn_reads", n.reads)
+		bump("net_mode_short_reads", n.short) // the decoder had to loop for the rest of a primitive
+		bump("net_mode_sentinel_checks", 1)
+		top("max_net_mode_bytes", int64(len(ok.enc)))
+		top("max_net_mode_fragments", int64(n.fragments))
+		netTopByTag[v.Tag]++
+		netPlans[n.plan] = true
+		valgen.Stats(v, func(x *V, _ int) { netNodesByTag[x.Tag]++ })
+	}
 	top("max_depth", int64(st.Depth))
 	top("max_width", int64(st.MaxWidth))
 	top("max_encoding_bytes", int64(len(ok.enc)))
@@ -313,7 +426,7 @@ func observe(c *vlib.Ctx, section string, v V, ok *okInfo) {
 	if st.MaxWidth >= 10000 {
 		bump("values_width_ge10000", 1)
 	}
-	if b, l := chains(ok.decoded); b > 0 {
+	if b, l := chains(ok.decoded[0]); b > 0 {
 		which := "str"
 		if v.Tag == refcodec.TIntMap {
 			which = "int"
@@ -332,15 +445,24 @@ func observe(c *vlib.Ctx, section string, v V, ok *okInfo) {
 	}
 	if c.WantSample() && st.Nodes >= 3 && st.Nodes <= 12 && len(ok.enc) <= 96 {
 		c.Sample(map[string]interface{}{"section": section, "value": valgen.Render(v, 400), "encoding_hex": vlib.Hex(ok.enc),
-			"nodes": st.Nodes, "depth": st.Depth})
+			"nodes": st.Nodes, "depth": st.Depth, "also_decoded_from_connection": ok.net != nil})
 	}
+	return st
 }
 
-// check is the per-case entry: oracle, minimisation, reporting, evidence.
-func check(c *vlib.Ctx, section string, v V) {
-	f, ok := roundTrip(v)
+// check is the per-case entry: oracle, minimisation, reporting, evidence. r is the case's
+// stream after the value was generated from it (it only salts the fragment sizes).
+func check(c *vlib.Ctx, section string, i int, r *vlib.Rand, v V) {
+	id := fmt.Sprintf("%s#%d", section, i)
+	f, ok := roundTrip(v, opts{net: true, salt: r.U64()})
 	if f == nil {
-		observe(c, section, v, ok)
+		st := observe(c, section, v, ok)
+		laterValues(c, id, v, st.Nodes, ok)
+		return
+	}
+	if f.inconclusive() {
+		c.Inconclusive(id, f.what)
+		bump("values_inconclusive", 1)
 		return
 	}
 	mv, mf := minimize(v, f)
@@ -587,14 +709,14 @@ func main() {
 
 	edges := edgeCases()
 	c.Cases("edge", len(edges), func(i int, r *vlib.Rand) {
-		check(c, "edge", edges[i]())
+		check(c, "edge", i, r, edges[i]())
 	})
 
 	nRandom := c.N(24000, 560000)
 	c.Cases("random", nRandom, func(i int, r *vlib.Rand) {
 		depth := []int{0, 1, 1, 2, 2, 3, 3, 4, 5, 6, 8}[r.Intn(11)]
 		width := []int{0, 1, 2, 3, 3, 5, 8, 12, 20, 40}[r.Intn(10)]
-		check(c, "random", valgen.Gen(r, depth, width))
+		check(c, "random", i, r, valgen.Gen(r, depth, width))
 	})
 
 	nPerType := c.N(3000, 24000)
@@ -602,7 +724,7 @@ func main() {
 		tag := refcodec.ValueTags[int(vlib.Mix(uint64(i))%uint64(len(refcodec.ValueTags)))] // independent of the shard stride
 		depth := r.Intn(5)
 		width := []int{0, 1, 2, 4, 8, 16, 100}[r.Intn(7)]
-		check(c, "per-type", valgen.GenTag(r, tag, depth, width))
+		check(c, "per-type", i, r, valgen.GenTag(r, tag, depth, width))
 	})
 
 	// deep nesting: every depth 1…64 (quick); thorough continues to 2000
@@ -620,7 +742,7 @@ func main() {
 		if st := valgen.Stats(v, nil); st.Depth < depth {
 			panic(fmt.Sprintf("generator: wanted depth %d, built %d", depth, st.Depth))
 		}
-		check(c, "deep", v)
+		check(c, "deep", i, r, v)
 	})
 
 	// wide containers (several table growths, up to 40 000 entries) and full-length arrays
@@ -629,13 +751,13 @@ func main() {
 		if i%6 == 5 {
 			tag := arrayTags[(i/6)%4]
 			n := []int{32767, 32766, 16384, 4097}[(i/24)%4]
-			check(c, "wide", valgen.Wide(r, tag, n))
+			check(c, "wide", i, r, valgen.Wide(r, tag, n))
 			return
 		}
 		k := i - i/6 - 0 // index among the container cases
 		tag := contTags[k%3]
 		n := wideSizes[len(wideSizes)-1-(k/3)%len(wideSizes)] // largest first: 40 000 is always reached
-		check(c, "wide", valgen.Wide(r, tag, n))
+		check(c, "wide", i, r, valgen.Wide(r, tag, n))
 	})
 
 	// keys that collide in the backing tables
@@ -657,8 +779,10 @@ func main() {
 				v.Vals[j] = valgen.Leaf(r, 3)
 			}
 		}
-		check(c, "collide", v)
+		check(c, "collide", i, r, v)
 	})
+
+	recheckElders(c, "end-of-run", nil) // the long-lived decoded values, after everything else
 
 	// ---- flush evidence ---------------------------------------------------------------------
 	for k, n := range stat {
@@ -670,6 +794,9 @@ func main() {
 	for k := range shapes {
 		c.SetAdd("shapes", k)
 	}
+	for k := range netPlans {
+		c.SetAdd("net_mode_fragment_plans", k)
+	}
 	var typesSeen int64
 	for _, t := range refcodec.ValueTags {
 		name := refcodec.ValueTagName(t)
@@ -680,6 +807,10 @@ func main() {
 		}
 		if topByTag[t] > 0 {
 			c.Count("toplevel_"+name, topByTag[t])
+		}
+		if netNodesByTag[t] > 0 {
+			c.SetAdd("net_mode_types_covered", name)
+			c.Count("net_mode_nodes_"+name, netNodesByTag[t])
 		}
 	}
 	if c.Only == "" {
@@ -697,6 +828,16 @@ func main() {
 		for _, t := range refcodec.ValueTags {
 			floor("nodes_"+refcodec.ValueTagName(t), int64(nRandom+nPerType)/20, nodesByTag[t])
 		}
+		// connection-backed decodes: most values take it; every type is met nested and fragmented
+		floor("net_mode_decodes", total/10, stat["net_mode_decodes"])
+		floor("net_mode_short_reads", total/10, stat["net_mode_short_reads"])
+		floor("net_mode_sentinel_checks", total/10, stat["net_mode_sentinel_checks"])
+		for _, t := range refcodec.ValueTags {
+			floor("net_mode_nodes_"+refcodec.ValueTagName(t), int64(nRandom+nPerType)/40, netNodesByTag[t])
+		}
+		floor("purity_second_decodes", total/10, stat["purity_second_decodes"])
+		floor("purity_later_rewalks", total/10, stat["purity_later_rewalks"])
+		floor("purity_long_lived_values", 16, stat["purity_long_lived_values"])
 		floor("values_depth_ge8", int64(nRandom/2000+nDeep/8), stat["values_depth_ge8"])
 		d64 := int64(nDeep-63) / 10
 		if d64 < 1 {
